@@ -138,13 +138,15 @@ def mk_tokens(seq):
     from pygments.token import Keyword, Name, Punctuation, Literal
     from codelimit.common.Location import Location
     from codelimit.common.Token import Token
+    # "s(" / "s)": the content token of a literal '(' / ")" - text of a parenthesis, class String: an ordinary
+    # token for the header shapes (defect F25: it used to open / close a group)
     tt = {"id": (Name, "f"), "kw": (Keyword, "kw"), "(": (Punctuation, "("), ")": (Punctuation, ")"),
-          "{": (Punctuation, "{"), "x": (Literal, "x")}
+          "{": (Punctuation, "{"), "x": (Literal, "x"), "s(": (Literal.String, "("), "s)": (Literal.String, ")")}
     return [Token(Location(1, i + 1), tt[a][0], tt[a][1]) for i, a in enumerate(seq)]
 
 
-KIND = {"id": 2, "kw": 1, "(": 3, ")": 3, "{": 3, "x": 0}
-VAL = {"id": "f", "kw": "kw", "(": "(", ")": ")", "{": "{", "x": "x"}
+KIND = {"id": 2, "kw": 1, "(": 3, ")": 3, "{": 3, "x": 0, "s(": 7, "s)": 7}
+VAL = {"id": "f", "kw": "kw", "(": "(", ")": ")", "{": "{", "x": "x", "s(": "(", "s)": ")"}
 
 
 def shape_scan(seq, p, opt_kw, req_kw):
@@ -230,8 +232,8 @@ def shape_cases(ctx):
     rnd = ctx.rng("shape")
     for _ in range(ctx.pick(2000, 40000)):
         n = rnd.randint(ln + 1, 14)
-        seqs.append([rnd.choice(["id", "kw", "(", "(", ")", ")", "{", "x"]) for _ in range(n)])
-    return seqs, "header shapes x all token sequences of length <= %d over {identifier, keyword, '(', ')', '{', other} (exhaustive) + random up to length 14" % ln
+        seqs.append([rnd.choice(["id", "kw", "(", "(", ")", ")", "{", "x", "s(", "s)"]) for _ in range(n)])
+    return seqs, "header shapes x all token sequences of length <= %d over {identifier, keyword, '(', ')', '{', other} (exhaustive) + random up to length 14 (these also with String tokens whose text is a parenthesis)" % ln
 
 
 def run_shapes(ctx):
